@@ -338,6 +338,9 @@ def AllAgg (P : TP) (l : List ValueAggregate) : Prop := ∀ v ∈ l, AggP P v
 
 def CanonOK (P : TP) (w : CanonStreamWP) : Prop := AllAgg P w.canonStream.values
 
+/-- the key-value pairs of a canon map (everything a canon map hands out with a non-canon provenance is one of them) -/
+def CanonMapOK (P : TP) (w : CanonStreamMapWP) : Prop := AllAgg P w.canonStreamMap.values
+
 def IterOK (P : TP) : IterableValue → Prop
   | .resolvedCall v _ _ => AggP P v
   | .lambdaResult _ t p _ => P t p
@@ -347,6 +350,7 @@ structure ScalarsOK (P : TP) (s : Scalars) : Prop where
   cells : CellsOK (AggP P) s.nonIterable.cells
   iters : ∀ e ∈ s.iterable, IterOK P e.2.iterable
   canons : CellsOK (CanonOK P) s.canonStreams.cells
+  canonMaps : CellsOK (CanonMapOK P) s.canonMaps.cells
 
 theorem iterOK_mono {P Q : TP} (h : ∀ t p, P t p → Q t p) {it : IterableValue} (hs : IterOK P it) : IterOK Q it := by
   cases it with
@@ -359,7 +363,7 @@ theorem allAgg_mono {P Q : TP} (h : ∀ t p, P t p → Q t p) {l : List ValueAgg
 
 theorem scalarsOK_mono {P Q : TP} (h : ∀ t p, P t p → Q t p) {s : Scalars} (hs : ScalarsOK P s) : ScalarsOK Q s :=
   ⟨cellsOK_mono (fun _ hv => h _ _ hv) hs.cells, fun e he => iterOK_mono h (hs.iters e he),
-   cellsOK_mono (fun _ hv => allAgg_mono h hv) hs.canons⟩
+   cellsOK_mono (fun _ hv => allAgg_mono h hv) hs.canons, cellsOK_mono (fun _ hv => allAgg_mono h hv) hs.canonMaps⟩
 
 /-! ### iterables -/
 
@@ -484,7 +488,7 @@ theorem setScalarValue_ok {P : TP} {s s' : Scalars} {name : String} {v : ValueAg
     obtain ⟨b, m⟩ := r
     simp [hm, bind, Res.bind, pure] at h
     subst h
-    exact ⟨setValue_ok hs.cells hv hm, hs.iters, hs.canons⟩
+    exact ⟨setValue_ok hs.cells hv hm, hs.iters, hs.canons, hs.canonMaps⟩
   | error e => simp [hm, bind, Res.bind] at h
   | panic e => simp [hm, bind, Res.bind] at h
 
@@ -496,7 +500,7 @@ theorem setCanonValue_ok {P : TP} {s s' : Scalars} {name : String} {w : CanonStr
     obtain ⟨b, m⟩ := r
     simp [hm, bind, Res.bind, pure] at h
     subst h
-    exact ⟨hs.cells, hs.iters, setValue_ok hs.canons hv hm⟩
+    exact ⟨hs.cells, hs.iters, setValue_ok hs.canons hv hm, hs.canonMaps⟩
   | error e => simp [hm, bind, Res.bind] at h
   | panic e => simp [hm, bind, Res.bind] at h
 
@@ -522,7 +526,7 @@ theorem getIterable_ok {P : TP} {s : Scalars} {name : String} {f : FoldState} (h
 
 theorem setIterableState_ok {P : TP} {s : Scalars} (name : String) {f : FoldState} (hs : ScalarsOK P s) (hf : IterOK P f.iterable) :
     ScalarsOK P (s.setIterableState name f) := by
-  refine ⟨hs.cells, ?_, hs.canons⟩
+  refine ⟨hs.cells, ?_, hs.canons, hs.canonMaps⟩
   intro e he
   simp only [Scalars.setIterableState] at he
   obtain ⟨⟨k0, g0⟩, he0, rfl⟩ := List.mem_map.mp he
@@ -536,7 +540,7 @@ theorem setIterableValue_ok {P : TP} {s s' : Scalars} {name : String} {f : FoldS
   split at h
   · simp [uncatchable] at h
   · injection h with h; subst h
-    refine ⟨hs.cells, ?_, hs.canons⟩
+    refine ⟨hs.cells, ?_, hs.canons, hs.canonMaps⟩
     intro e he
     rcases List.mem_append.mp he with h1 | h1
     · exact hs.iters e h1
@@ -544,10 +548,10 @@ theorem setIterableValue_ok {P : TP} {s s' : Scalars} {name : String} {f : FoldS
 
 theorem removeIterableValue_ok {P : TP} {s : Scalars} (name : String) (hs : ScalarsOK P s) :
     ScalarsOK P (s.removeIterableValue name) :=
-  ⟨hs.cells, fun e he => hs.iters e (List.mem_filter.mp he).1, hs.canons⟩
+  ⟨hs.cells, fun e he => hs.iters e (List.mem_filter.mp he).1, hs.canons, hs.canonMaps⟩
 
-theorem s_meetFoldStart_ok {P : TP} {s : Scalars} (hs : ScalarsOK P s) : ScalarsOK P s.meetFoldStart := ⟨hs.cells, hs.iters, hs.canons⟩
-theorem s_meetNextBefore_ok {P : TP} {s : Scalars} (hs : ScalarsOK P s) : ScalarsOK P s.meetNextBefore := ⟨hs.cells, hs.iters, hs.canons⟩
+theorem s_meetFoldStart_ok {P : TP} {s : Scalars} (hs : ScalarsOK P s) : ScalarsOK P s.meetFoldStart := ⟨hs.cells, hs.iters, hs.canons, hs.canonMaps⟩
+theorem s_meetNextBefore_ok {P : TP} {s : Scalars} (hs : ScalarsOK P s) : ScalarsOK P s.meetNextBefore := ⟨hs.cells, hs.iters, hs.canons, hs.canonMaps⟩
 
 theorem s_meetNextAfter_ok {P : TP} {s s' : Scalars} (hs : ScalarsOK P s) (h : s.meetNextAfter = .ok s') : ScalarsOK P s' := by
   unfold Scalars.meetNextAfter at h
@@ -555,8 +559,12 @@ theorem s_meetNextAfter_ok {P : TP} {s s' : Scalars} (hs : ScalarsOK P s) (h : s
   | ok m =>
     cases hm2 : s.canonStreams.meetNextAfter with
     | ok m2 =>
-      simp [hm, hm2, bind, Res.bind, pure] at h; subst h
-      exact ⟨meetNextAfter_ok hs.cells hm, hs.iters, meetNextAfter_ok hs.canons hm2⟩
+      cases hm3 : s.canonMaps.meetNextAfter with
+      | ok m3 =>
+        simp [hm, hm2, hm3, bind, Res.bind, pure] at h; subst h
+        exact ⟨meetNextAfter_ok hs.cells hm, hs.iters, meetNextAfter_ok hs.canons hm2, meetNextAfter_ok hs.canonMaps hm3⟩
+      | error e => simp [hm, hm2, hm3, bind, Res.bind] at h
+      | panic e => simp [hm, hm2, hm3, bind, Res.bind] at h
     | error e => simp [hm, hm2, bind, Res.bind] at h
     | panic e => simp [hm, hm2, bind, Res.bind] at h
   | error e => simp [hm, bind, Res.bind] at h
@@ -568,23 +576,56 @@ theorem s_meetFoldEnd_ok {P : TP} {s s' : Scalars} (hs : ScalarsOK P s) (h : s.m
   | ok m =>
     cases hm2 : s.canonStreams.meetFoldEnd with
     | ok m2 =>
-      simp [hm, hm2, bind, Res.bind, pure] at h; subst h
-      exact ⟨meetFoldEnd_ok hs.cells hm, hs.iters, meetFoldEnd_ok hs.canons hm2⟩
+      cases hm3 : s.canonMaps.meetFoldEnd with
+      | ok m3 =>
+        simp [hm, hm2, hm3, bind, Res.bind, pure] at h; subst h
+        exact ⟨meetFoldEnd_ok hs.cells hm, hs.iters, meetFoldEnd_ok hs.canons hm2, meetFoldEnd_ok hs.canonMaps hm3⟩
+      | error e => simp [hm, hm2, hm3, bind, Res.bind] at h
+      | panic e => simp [hm, hm2, hm3, bind, Res.bind] at h
     | error e => simp [hm, hm2, bind, Res.bind] at h
     | panic e => simp [hm, hm2, bind, Res.bind] at h
   | error e => simp [hm, bind, Res.bind] at h
   | panic e => simp [hm, bind, Res.bind] at h
 
 theorem s_meetNewStart_ok {P : TP} {s : Scalars} (n : String) (hs : ScalarsOK P s) : ScalarsOK P (s.meetNewStartScalar n) :=
-  ⟨meetNewStart_ok n hs.cells, hs.iters, hs.canons⟩
+  ⟨meetNewStart_ok n hs.cells, hs.iters, hs.canons, hs.canonMaps⟩
 
 theorem s_meetNewEnd_ok {P : TP} {s : Scalars} (n : String) (hs : ScalarsOK P s) : ScalarsOK P (s.meetNewEndScalar n).1 :=
-  ⟨meetNewEnd_ok n hs.cells, hs.iters, hs.canons⟩
+  ⟨meetNewEnd_ok n hs.cells, hs.iters, hs.canons, hs.canonMaps⟩
 
 theorem s_meetNewStartCanon_ok {P : TP} {s : Scalars} (n : String) (hs : ScalarsOK P s) : ScalarsOK P (s.meetNewStartCanon n) :=
-  ⟨hs.cells, hs.iters, meetNewStart_ok n hs.canons⟩
+  ⟨hs.cells, hs.iters, meetNewStart_ok n hs.canons, hs.canonMaps⟩
 
 theorem s_meetNewEndCanon_ok {P : TP} {s : Scalars} (n : String) (hs : ScalarsOK P s) : ScalarsOK P (s.meetNewEndCanon n).1 :=
-  ⟨hs.cells, hs.iters, meetNewEnd_ok n hs.canons⟩
+  ⟨hs.cells, hs.iters, meetNewEnd_ok n hs.canons, hs.canonMaps⟩
+
+theorem s_meetNewStartCanonMap_ok {P : TP} {s : Scalars} (n : String) (hs : ScalarsOK P s) : ScalarsOK P (s.meetNewStartCanonMap n) :=
+  ⟨hs.cells, hs.iters, hs.canons, meetNewStart_ok n hs.canonMaps⟩
+
+theorem s_meetNewEndCanonMap_ok {P : TP} {s : Scalars} (n : String) (hs : ScalarsOK P s) : ScalarsOK P (s.meetNewEndCanonMap n).1 :=
+  ⟨hs.cells, hs.iters, hs.canons, meetNewEnd_ok n hs.canonMaps⟩
+
+theorem setCanonMapValue_ok {P : TP} {s s' : Scalars} {name : String} {w : CanonStreamMapWP} (hs : ScalarsOK P s) (hv : CanonMapOK P w)
+    (h : s.setCanonMapValue name w = .ok s') : ScalarsOK P s' := by
+  unfold Scalars.setCanonMapValue at h
+  cases hm : s.canonMaps.setValue name w with
+  | ok r =>
+    obtain ⟨b, m⟩ := r
+    simp [hm, bind, Res.bind, pure] at h
+    subst h
+    exact ⟨hs.cells, hs.iters, hs.canons, setValue_ok hs.canonMaps hv hm⟩
+  | error e => simp [hm, bind, Res.bind] at h
+  | panic e => simp [hm, bind, Res.bind] at h
+
+theorem getCanonMap_ok {P : TP} {s : Scalars} {name : String} {w : CanonStreamMapWP} (hs : ScalarsOK P s)
+    (h : s.getCanonMap name = .ok w) : CanonMapOK P w := by
+  unfold Scalars.getCanonMap at h
+  split at h
+  · rename_i v hv
+    injection h with h; subst h
+    exact getValue_ok hs.canonMaps hv
+  · simp [catchable] at h
+  · cases h
+  · cases h
 
 end AquaProps
